@@ -262,17 +262,20 @@ impl MemoryPool {
         let mut free_chunks = self.free_chunks.lock()
             .map_err(|e| ZiporaError::resource_busy(format!("Free chunks mutex poisoned: {}", e)))?;
 
+        let mut released = 0u64;
         while let Some(chunk_ptr) = free_chunks.pop_front() {
             // Safety: chunk_ptr came from our own allocation, so it's valid for deallocation
             let chunk = unsafe { NonNull::new_unchecked(chunk_ptr) };
             self.deallocate_chunk(chunk);
+            released += 1;
         }
 
-        // Reset stats
+        // Reset stats: the released chunks are no longer held from the system
         let mut stats = self.stats.write()
             .map_err(|e| ZiporaError::resource_busy(format!("Stats RwLock poisoned: {}", e)))?;
         stats.chunks = 0;
         stats.available = 0;
+        stats.allocated = stats.allocated.saturating_sub(released * self.config.chunk_size as u64);
 
         Ok(())
     }
@@ -312,7 +315,10 @@ impl MemoryPool {
     }
 
     fn update_stats_on_alloc(&self, from_pool: bool) {
-        if let Ok(mut stats) = self.stats.try_write() {
+        // write(), not try_write(): a skipped update under contention made `allocated` drift.
+        // Lock order is free_chunks -> stats everywhere (allocate, deallocate, clear), stats()
+        // releases its read guard before it looks at free_chunks: blocking here cannot deadlock.
+        if let Ok(mut stats) = self.stats.write() {
             if !from_pool {
                 stats.allocated += self.config.chunk_size as u64;
             }
@@ -320,7 +326,7 @@ impl MemoryPool {
     }
 
     fn update_stats_on_dealloc(&self, to_pool: bool) {
-        if let Ok(mut stats) = self.stats.try_write() {
+        if let Ok(mut stats) = self.stats.write() {
             if !to_pool {
                 stats.allocated = stats
                     .allocated
